@@ -497,7 +497,14 @@ class NpShim:
         dt = _np.dtype(dtype)
         info = _np.iinfo(dt)
         lo, span = int(info.min), 2 ** (8 * dt.itemsize)
-        n = int(a.size if axis is None else a.shape[axis])
+        if axis is None:
+            n = int(a.size)
+        elif isinstance(axis, tuple):
+            n = 1
+            for ax in axis:
+                n *= int(a.shape[ax])
+        else:
+            n = int(a.shape[axis])
 
         def wrap(x):
             if not isinstance(x, Sym):
@@ -521,6 +528,23 @@ class NpShim:
             out = out.view(SArr)
             return tagged(out, dt)
         return wrap(r)
+
+    def einsum(self, subscripts, *operands, **k):
+        """np.einsum keeps the dtype of its operands: a reduction over an
+        array of a narrow integer type wraps like np.sum(dtype=that type)"""
+        if len(operands) == 1 and isinstance(operands[0], SArr) and \
+                '->' in str(subscripts) and not k:
+            a = operands[0]
+            ins, out = str(subscripts).replace(' ', '').split('->')
+            if len(ins) == a.ndim and len(set(ins)) == len(ins) and \
+                    set(out) <= set(ins) and \
+                    list(out) == [c for c in ins if c in out]:
+                axes = tuple(i for i, c in enumerate(ins) if c not in out)
+                decl = getattr(a, 'decl', None)
+                if axes:
+                    return self.sum(a, axis=axes if len(axes) > 1
+                                    else axes[0], dtype=decl)
+        return _np.einsum(subscripts, *operands, **k)
 
     def where(self, *args):
         if len(args) == 3:
